@@ -335,8 +335,31 @@ def storage_kinds():
                 return None
             return (Fresh(p[0]), Fresh(p[1]))
 
+    def hashcons(n, memo):
+        """identical sub-trees (and atoms) are the SAME python object"""
+        key = walk_ser(n)
+        if key in memo:
+            return memo[key]
+        if n.pair is not None:
+            o = PyNode(pair=(hashcons(n.pair[0], memo), hashcons(n.pair[1], memo)))
+        else:
+            o = PyNode(atom=bytes(n.atom))
+        memo[key] = o
+        return o
+
+    def atoms_shared(n, memo):
+        """only equal atoms are the same python object"""
+        if n.pair is not None:
+            return PyNode(pair=(atoms_shared(n.pair[0], memo), atoms_shared(n.pair[1], memo)))
+        b = bytes(n.atom)
+        if b not in memo:
+            memo[b] = PyNode(atom=b)
+        return memo[b]
+
     return {
         "plain": lambda b: to_py(ref_deser(b)[0]),
+        "plain-hashcons": lambda b: hashcons(ref_deser(b)[0], {}),
+        "plain-atoms-shared": lambda b: atoms_shared(ref_deser(b)[0], {}),
         "Program.to": lambda b: Program.to(to_tuple(ref_deser(b)[0])),
         "Program.from_bytes": lambda b: Program.from_bytes(b),
         "LazyNode": lambda b: c.deser_legacy(b),
@@ -378,7 +401,7 @@ def run_c27(res):
         for d in pool.imap_unordered(c27_worker, chunks(lines, 64)):
             res.merge(d)
     res.rule = ("every tree of TREES(4|5, {'aaaa','bbbb',''}) wrapped in every CLVMStorage implementation the wheel ships or accepts (plain python objects, Program.to, Program.from_bytes, "
-                "LazyNode from deser_legacy, a wrapper whose pair accessor builds fresh children on every access, CLVMTree): ser_2026(clvm_tree_to_lazy_node(obj)) is decoded with deser_2026 and "
+                "plain objects with hash-consed / atom-shared python identity, LazyNode from deser_legacy, a wrapper whose pair accessor builds fresh children on every access, CLVMTree): ser_2026(clvm_tree_to_lazy_node(obj)) is decoded with deser_2026 and "
                 "walked through atom/pair; it must serialize to the source bytes. Non-trivial = (tree, storage kind) pairs that round-trip.")
 
 
